@@ -46,7 +46,11 @@ def limit_for(an):
         # not a stopping game (in the property's sense): the reward iteration may legitimately never end; a modest budget is enough
         # for the reachability part, which is what the checks that admit such games look at
         tmax = max(an.tmax) if an.stopping else 50
-    return monitors.step_limit(n, m, tmax)
+    lim = monitors.step_limit(n, m, tmax)
+    cap = an.gd.get("_sweep_cap")
+    if cap:
+        lim = min(lim, int(cap * (n + m) + 1e5))
+    return lim
 
 
 def solve_both(gd, an):
